@@ -55,20 +55,54 @@ def scan_trusted(text):
     return out
 
 
-def run_unit(unit_name, extra_args=(), keep=True, inject=None, inject_false=None, tag='', extra_consts=None):
+def r32_requests(errors, g, text):
+    """R32: unknown free fn / method / associated fn that IS an item of the same source file as the failing region (a helper a
+    change has split off) -> [(sidecar line of the @item, file, selector, call form)].  Guard: in that region every call of that
+    form and name is reported unknown (so no call that resolves to something else is ever rewritten)."""
+    import rustlex as rl
+    pats = (('free', r'cannot find function `(\w+)` in this scope'),
+            ('method', r'no method named `(\w+)` found for .*`([^`]+)` in the current scope'),
+            ('assoc', r'no (?:function or associated item|associated function or constant|associated item) named `(\w+)` found for .*`([^`]+)` in the current scope'))
+    hits = {}
+    for d in errors:
+        for form, pat in pats:
+            m = re.match(pat, d.get('message', ''))
+            if not m:
+                continue
+            ln = next((sp['line_start'] for sp in d.get('spans', []) if sp.get('is_primary')), None)
+            reg = next((r for r in g.regions if ln is not None and r['line0'] <= ln <= r['line1'] and r.get('src') and r.get('iline')), None)
+            if reg:
+                ty = re.sub(r'<.*', '', m.group(2).replace('&', '').replace('mut ', '').strip()).split('::')[-1] if form != 'free' else ''
+                cfile = reg['src'].rsplit(':', 1)[0]
+                key = (reg['iline'], cfile, gen.mod_prefix(cfile, reg['sel']) + (f'{ty}::{m.group(1)}' if ty else m.group(1)), form)
+                hits.setdefault(key, [reg, 0])[1] += 1
+    want = []
+    lines = text.split('\n')
+    for (iline, cfile, sel, form), (reg, n_err) in hits.items():
+        try:
+            gen.find_item(cfile, 'fn', sel)
+        except Exception:
+            continue
+        ct = rl.code_toks(rl.lex('\n'.join(lines[reg['line0'] - 1:reg['line1']])))
+        if len(gen.call_sites(ct, sel.split('::')[-1], form)) == n_err:
+            want.append((iline, cfile, sel, form))
+    return want
+
+
+def run_unit(unit_name, extra_args=(), keep=True, inject=None, inject_false=None, tag='', extra_consts=None, inline=None, r32_round=0):
     """Returns a result dict.  inject: optional function(text)->text used by the vacuity self-test."""
     t0 = time.time()
     res = {'unit': unit_name, 'status': 'ok', 'undecided': [], 'obligations': [], 'errors': [],
            'wall_s': 0.0, 'solver_ms': {}, 'functions': [], 'dropped': [], 'trusted': [], 'cmd': ''}
     try:
-        u, g, text = gen.generate(unit_name, inject_false=inject_false, extra_consts=extra_consts)
+        u, g, text = gen.generate(unit_name, inject_false=inject_false, extra_consts=extra_consts, inline=inline)
     except gen.SpecError as e:
-        res['status'] = 'undecided'
+        res['status'] = 'undecided'; res['hard_fail'] = True
         res['undecided'].append(str(e))
         res['wall_s'] = time.time() - t0
         return res
     except Exception as e:  # extractor crash = machinery problem, never an alarm
-        res['status'] = 'undecided'
+        res['status'] = 'undecided'; res['hard_fail'] = True
         res['undecided'].append(f'extractor error: {type(e).__name__}: {e}')
         res['wall_s'] = time.time() - t0
         return res
@@ -124,9 +158,28 @@ def run_unit(unit_name, extra_args=(), keep=True, inject=None, inject_false=None
                 except Exception:
                     pass
         if want:
-            r2 = run_unit(unit_name, extra_args, keep, inject, inject_false, tag, extra_consts=want)
+            r2 = run_unit(unit_name, extra_args, keep, inject, inject_false, tag, extra_consts=want, inline=inline, r32_round=r32_round)
             r2.setdefault('auto_consts', want)
             return r2
+    # R32: unknown fn/method = a helper of the same source file that a change has split off a contracted fn: inline its body at the
+    # call sites (gen.inline_helper) and run again; a helper may call a further one, so up to 4 rounds.  When the rule refuses, or the
+    # rewritten text does not reach the solver, this run is classified exactly as before.
+    new = [w for w in r32_requests(errors, g, text) if w not in (inline or [])]
+    if new and r32_round < 4:
+        try:
+            g2 = gen.generate(unit_name, inject_false=inject_false, extra_consts=extra_consts, inline=(inline or []) + new)[1]
+            grew = sum(1 for x in g2.dropped if x['rule'] == 'R32') > sum(1 for x in g.dropped if x['rule'] == 'R32')
+            res['r32_refused'] = g2.r32_refused
+        except Exception as e:
+            grew = False
+            res['r32_refused'] = [f'{type(e).__name__}: {e}']
+        if grew:
+            r2 = run_unit(unit_name, extra_args, keep, inject, inject_false, tag, extra_consts=extra_consts, inline=(inline or []) + new,
+                          r32_round=r32_round + 1)
+            if not r2.get('hard_fail'):
+                r2.setdefault('auto_inline', (inline or []) + new)
+                return r2
+            res['r32_refused'] = r2.get('r32_refused', []) + ['R32 applied, but the rewritten text did not reach the solver: ' + '; '.join(r2['undecided'])[:600]]
     vr = (js or {}).get('verification-results', {})
     res['verus_summary'] = vr
     if js:
@@ -202,13 +255,14 @@ def run_unit(unit_name, extra_args=(), keep=True, inject=None, inject_false=None
         res['errors'].append(rec)
     if undecided and vr.get('verified', 0) == 0 and vr.get('errors', 0) == 0:
         hard_fail = True   # rustc / VIR error: Verus never reached the solver
+    res['hard_fail'] = bool(hard_fail and not failed)
     if hard_fail and not failed:
         res['status'] = 'undecided'
         if not undecided:
             undecided.append('verus produced no verification results: ' + p.stderr[-1500:])
     if undecided:
         res['status'] = 'undecided'
-        res['undecided'] += undecided
+        res['undecided'] += undecided + ['R32 not applied: ' + x for x in res.get('r32_refused', [])]
     # ---- enumerate obligations
     obl = []
     unit_props = u.serves
@@ -268,4 +322,10 @@ if __name__ == '__main__':
     for e in r['errors']:
         if e.get('class') == 'undecided':
             print('UNDECIDED:', e['rendered'][:1500])
+    for k in ('auto_inline', 'r32_refused'):
+        if r.get(k):
+            print(k + ':', r[k])
+    for x in r['dropped']:
+        if x['rule'] == 'R32':
+            print('R32', x['at'], x['text'], '--', x['note'])
     print(len(r['obligations']), 'obligations,', sum(1 for o in r['obligations'] if o['status'] == 'discharged'), 'discharged')
